@@ -79,6 +79,43 @@ func (l *MemListener) Dial() (net.Conn, error) {
 	}
 }
 
+// FlakyConn is the server side of an in-memory connection whose writes can be made to fail while reads
+// keep blocking (a half-dead link).
+type FlakyConn struct {
+	net.Conn
+	mu         sync.Mutex
+	failWrites bool
+}
+
+// FailWrites makes every later Write fail.
+func (f *FlakyConn) FailWrites() {
+	f.mu.Lock()
+	f.failWrites = true
+	f.mu.Unlock()
+}
+
+func (f *FlakyConn) Write(b []byte) (int, error) {
+	f.mu.Lock()
+	fail := f.failWrites
+	f.mu.Unlock()
+	if fail {
+		return 0, errors.New("vnet: write on a half-dead link")
+	}
+	return f.Conn.Write(b)
+}
+
+// DialFlaky is Dial, but the server gets a FlakyConn, which is also returned to the caller.
+func (l *MemListener) DialFlaky() (net.Conn, *FlakyConn, error) {
+	c, s := net.Pipe()
+	fs := &FlakyConn{Conn: s}
+	select {
+	case l.ch <- fs:
+		return c, fs, nil
+	case <-l.done:
+		return nil, nil, errors.New("vnet: connection refused")
+	}
+}
+
 // Lookup finds the in-memory listener bound to addr (e.g. ":1883").
 func Lookup(addr string) *MemListener {
 	mu.Lock()
